@@ -14,6 +14,7 @@ func init() {
 	verifRegister("VerifC12Local", VerifC12Local)
 	verifRegister("VerifC12Arrays", VerifC12Arrays)
 	verifRegister("VerifC12Table", VerifC12Table)
+	verifRegister("VerifC12TableRows", VerifC12TableRows)
 }
 
 type verifGenTL1 interface {
@@ -39,12 +40,16 @@ func verifKernelValue(canonical string) onthefly.KernelValue {
 	panic("instance not found: " + canonical)
 }
 
-func verifC12(canonical string, g verifGenTL1) {
+func verifC12(canonical string, g verifGenTL1) { verifC12N(canonical, g, verifParam("N", 20)) }
+
+func verifC12N(canonical string, g verifGenTL1, N int) {
 	val := verifKernelValue(canonical)
 	// the interpreter allocates the declared element count before any length check: cut such paths at a small loop bound
 	verifLoopBound(verifParam("loop", 12))
-	bare := verifBool()
-	b := verifBytes(verifParam("N", 20))
+	verifC12Bytes(canonical, g, val, verifBool(), verifBytes(N))
+}
+
+func verifC12Bytes(canonical string, g verifGenTL1, val onthefly.KernelValue, bare bool, b []byte) {
 	var ctx onthefly.TLContext
 	r1, _, e1 := val.ReadTL1(b, &ctx, bare, nil)
 	var r2 []byte
@@ -76,4 +81,23 @@ func VerifC12Local()  { verifC12("f02.local", &gen.F02Local{}) }
 func VerifC12Arrays() { verifC12("f04.arrays", &gen.F04Arrays{}) }
 
 // vector of structs that take a # parameter and pass DIFFERENT nat arguments to their fields (per-element nat-argument stack)
-func VerifC12Table() { verifC12("c12.table", &gen.C12Table{}) }
+func VerifC12Table() { verifC12N("c12.table", &gen.C12Table{}, verifParam("NT", 24)) }
+
+// the same type on WELL-FORMED inputs built from parts: n in 0..1, two or three rows whose k (0..2) is chosen independently of n,
+// all element values symbolic - the region in which rows take different nat arguments, which arbitrary short inputs reach rarely
+func VerifC12TableRows() {
+	val := verifKernelValue("c12.table")
+	verifLoopBound(verifParam("loop", 12))
+	le := func(w []byte, v uint32) []byte { return append(w, byte(v), byte(v>>8), byte(v>>16), byte(v>>24)) }
+	n := uint32(verifChoice(2))
+	rows := 2 + verifChoice(2)
+	b := le(le(nil, n), uint32(rows))
+	for i := 0; i < rows; i++ {
+		k := uint32(verifChoice(3))
+		b = le(b, k)
+		for j := uint32(0); j < n+k; j++ {
+			b = le(b, verifU32())
+		}
+	}
+	verifC12Bytes("c12.table", &gen.C12Table{}, val, true, b)
+}
